@@ -1,0 +1,68 @@
+//go:build verif
+
+// Verification contracts for package lfs, property C30 (comment-only; read by /verif/govc).
+// This file contains no executable code.
+//
+// C30: with checksum validation on, the resolver and the consumer return a blob only if its checksum matches
+// the one the envelope declares (and, for the resolver, only if it is within the configured size limit).
+//
+// What "the checksum the envelope declares" means is fixed here, independently of the code, from the envelope
+// format (pkg/lfs/doc.go, EnvelopeChecksum's documentation):
+//   - the algorithm is checksum_alg, trimmed and lower-cased, "" meaning sha256; anything but
+//     sha256 / md5 / crc32 / none is an error;
+//   - "none" declares nothing;
+//   - otherwise the declared value is the `checksum` field under that algorithm when it is non-empty, else the
+//     `sha256` field under sha256 when that is non-empty, else nothing is declared.
+// lfsSum(alg, content) is the lower-case hex digest: an uninterpreted function of the algorithm name and of the
+// byte string (spec/lfs_externals.spec), so "matches" is equality of that function's value on the returned bytes.
+
+package lfs
+
+//@ spec func lfsNormAlg(raw string) string = ite(toLower(trimSpace(raw)) == "", "sha256", toLower(trimSpace(raw)))
+//@ spec func lfsAlgKnown(a string) bool = a == "sha256" || a == "md5" || a == "crc32" || a == "none"
+//@ spec func lfsDeclares(env Envelope) bool = lfsAlgKnown(lfsNormAlg(env.ChecksumAlg)) && lfsNormAlg(env.ChecksumAlg) != "none" && (env.Checksum != "" || env.SHA256 != "")
+//@ spec func lfsDeclAlg(env Envelope) string = ite(env.Checksum != "", lfsNormAlg(env.ChecksumAlg), "sha256")
+//@ spec func lfsDeclSum(env Envelope) string = ite(env.Checksum != "", env.Checksum, env.SHA256)
+//@ spec func lfsSum(alg string, content string) string = lfsHexEncode(lfsHashDigest(alg, content))
+
+//@ func NormalizeChecksumAlg
+//@   ensures [C30.norm_known] lfsAlgKnown(lfsNormAlg(raw)) ==> err == nil && string(result0) == lfsNormAlg(raw)
+//@   ensures [C30.norm_unknown] !lfsAlgKnown(lfsNormAlg(raw)) ==> err != nil
+
+//@ func EnvelopeChecksum
+//@   ensures [C30.env_unsupported] !lfsAlgKnown(lfsNormAlg(env.ChecksumAlg)) ==> err != nil
+//@   ensures [C30.env_supported] lfsAlgKnown(lfsNormAlg(env.ChecksumAlg)) ==> err == nil && result2 == lfsDeclares(env)
+//@   ensures [C30.env_declared] err == nil && result2 ==> string(result0) == lfsDeclAlg(env) && result1 == lfsDeclSum(env)
+//@   ensures [C30.env_alg_known] err == nil ==> lfsAlgKnown(string(result0))
+
+//@ func ComputeChecksum
+//@   ensures [C30.compute_is_hex_digest] err == nil && alg != "none" ==> result0 == lfsSum(string(alg), string(data))
+//@   ensures [C30.compute_total] lfsAlgKnown(string(alg)) ==> err == nil
+//@   ensures [C30.compute_frame] len(data) == old(len(data)) && string(data) == old(string(data))
+
+//@ func (r *Resolver) Resolve
+//@   ghost genv Envelope = nil
+//@   ghost gis bool = false
+//@   at IsLfsEnvelope#1 after set gis = ret0
+//@   at DecodeEnvelope#1 after set genv = ret0
+//@   at Fetch#1 before assert [C30.resolve_fetches_envelope_key] arg1 == genv.Key
+//@   ensures [C30.resolve_is_envelope] result1 == gis
+//@   ensures [C30.resolve_passthrough] !result1 ==> err == nil && sameSlice(result0.Payload, value) && result0.BlobSize == int64(len(value))
+//@   ensures [C30.resolve_envelope] err == nil && result1 ==> result0.Envelope == genv
+//@   ensures [C30.resolve_checksum] err == nil && result1 && r.cfg.ValidateChecksum && lfsDeclares(result0.Envelope) ==> lfsSum(lfsDeclAlg(result0.Envelope), string(result0.Payload)) == lfsDeclSum(result0.Envelope)
+//@   ensures [C30.resolve_unsupported_alg] result1 && !lfsAlgKnown(lfsNormAlg(genv.ChecksumAlg)) ==> err != nil
+//@   ensures [C30.resolve_max_size] err == nil && result1 && r.cfg.MaxSize > 0 ==> int64(len(result0.Payload)) <= r.cfg.MaxSize
+//@   ensures [C30.resolve_reports] err == nil && result1 ==> result0.BlobSize == int64(len(result0.Payload)) && (lfsDeclares(result0.Envelope) ==> result0.Checksum == lfsDeclSum(result0.Envelope) && result0.ChecksumAlg == lfsDeclAlg(result0.Envelope))
+
+//@ func (c *Consumer) Unwrap
+//@   requires c.fetcher != nil
+//@   ghost genv Envelope = nil
+//@   ghost gis bool = false
+//@   at IsLfsEnvelope#1 after set gis = ret0
+//@   at DecodeEnvelope#1 after set genv = ret0
+//@   at Fetch#1 before assert [C30.unwrap_fetches_envelope_key] arg1 == genv.Key
+//@   ensures [C30.unwrap_passthrough] !gis ==> err == nil && result0 == nil && sameSlice(result1, value)
+//@   ensures [C30.unwrap_envelope] gis && err == nil ==> result0 != nil && *result0 == genv
+//@   ensures [C30.unwrap_checksum] gis && err == nil && c.validateChecksum && lfsDeclares(genv) ==> lfsSum(lfsDeclAlg(genv), string(result1)) == lfsDeclSum(genv)
+//@   ensures [C30.unwrap_unsupported_alg] gis && c.validateChecksum && !lfsAlgKnown(lfsNormAlg(genv.ChecksumAlg)) ==> err != nil
+//@   ensures [C30.unwrap_error_no_blob] err != nil ==> len(result1) == 0
